@@ -1104,6 +1104,15 @@ func c14E2EScenarios(tier string) []*world.Scenario {
 		out = append(out, c14E2E("failover", base, fail, key, AddrA1, true, b))
 		out = append(out, c14E2E("node-added", base, added, key, AddrD, write, b))
 	}
+	// a small configured size limit (the CLUSTER NODES reply, ~500 bytes, is larger than the client message limit of 256):
+	// the limit concerns clients' requests and replies, the proxy's own topology probe is not subject to it
+	{
+		sc := c14E2E("range-moved", base, moved, key, AddrB, true, b)
+		sc.MaxLen = 256
+		sc.Family = "end-to-end-small-limit"
+		sc.Name = fmt.Sprintf("C14/e2e-small-size-limit/range-moved/d%d", b)
+		out = append(out, sc)
+	}
 	out = append(out, c14E2ELoad("range-moved", T3m(), func() []world.NodeSpec {
 		m := T3m()
 		m[0].Slots = [][2]int{{0, slot - 1}}
